@@ -88,7 +88,14 @@ def run_parallel(modname, tasks, nproc, log=print):
         while pending:
             done, pending = cf.wait(pending, return_when=cf.FIRST_COMPLETED)
             for f in done:
-                name, acc, roots = f.result()
+                try:
+                    name, acc, roots = f.result()
+                except Exception as e:      # e.g. BrokenProcessPool when a worker was killed (out of memory): inconclusive, never success
+                    total.add('errors', dict(task='<worker pool>', error=f'{type(e).__name__}: {e}', tb=''))
+                    for p_ in list(pending):
+                        p_.cancel()
+                    pending = set()
+                    break
                 total.merge(acc)
                 per_task.setdefault(name, Acc()).merge(acc)
                 if total.get('#candidates') >= 48:
